@@ -249,3 +249,20 @@ def element_at(root, path):
     for k in path:
         el = el[k]
     return el
+
+
+def attr_table(el):
+    """the element's attribute table as the parser delivers it: ((namespace | None, local name, value), ...) in order"""
+    out = []
+    for k, v in el.attrib.items():
+        if k.startswith("{"):
+            ns, _, local = k[1:].partition("}")
+            out.append((ns, local, v))
+        else:
+            out.append((None, k, v))
+    return tuple(out)
+
+
+def coq_attr_table(t):
+    from core import cstr, copt, clist
+    return clist(list(t), lambda a: "(%s, %s, %s)" % (copt(a[0], cstr), cstr(a[1]), cstr(a[2])))
